@@ -1,4 +1,6 @@
 """C15 — textual and binary encodings round-trip losslessly."""
+import sys
+
 from vlib.runner import Batch
 
 ID = "C15"
@@ -8,7 +10,8 @@ HARNESS = {"src": "harness/c15.cpp", "repo_srcs": [
     "libs/core/src/narrow_locale.cpp", "libs/core/src/widen_locale.cpp", "libs/core/src/from_std_wstring_locale.cpp",
     "libs/core/src/to_std_wstring_locale.cpp", "libs/core/src/from_std_string_locale.cpp", "libs/core/src/to_std_string_locale.cpp",
     "libs/core/src/narrow.cpp", "libs/core/src/widen.cpp", "libs/core/src/string_conv_locale.cpp", "libs/core/src/from_std_wstring.cpp",
-    "libs/core/src/to_std_wstring.cpp",
+    "libs/core/src/to_std_wstring.cpp", "libs/core/src/from_std_string.cpp", "libs/core/src/to_std_string.cpp",
+    "libs/core/src/io/read_chars.cpp", "libs/core/src/io/write_chars.cpp",
 ]}
 TIE = "hand-written model (FcpptModel/Model/C15/*.lean) + differential correspondence against the real templates and .cpp files"
 RULE = ("One op = one call sequence of the real code with one canonical result line; digest ops (bins / rtds / nws) enumerate a range on "
@@ -22,8 +25,19 @@ RULE = ("One op = one call sequence of the real code with one canonical result l
         "up to length 40 plus, for every length 1..40, strings whose encoded size is n, 2n, 3n, 4n and n+1..n+3 (all buffer growth paths); "
         "single calls of the real codecvt facet for every window size incl. primed states (contract of the abstract converter); ill-formed "
         "byte / wide strings (truncated, overlong, surrogates, > U+10FFFF, stray bytes, embedded NULs) where additionally the result must be "
-        "the complete conversion or a failure by the plugin's own strict UTF-8 coder (extra_checks). An op is non-trivial unless it is "
-        "`native` or answered bad-op.")
+        "the complete conversion or a failure by the plugin's own strict UTF-8 coder (extra_checks). Added by the extension round: "
+        "bool / char / char8_t / char16_t exhaustively and wchar_t / char32_t / long long / unsigned long long on the lattice; every script of "
+        "up to 3 (thorough 4) steps {io::write, io::read, write_chars, read_chars, peek, clear} on ONE std::stringstream with the state bits "
+        "after every step, plus seeded scripts with mixed types and byte orders; every text over {space,-,+,0,1,2,x} up to 4 into bool, every "
+        "text over {space,a,b,newline} up to 5 into std::(w)string; a grouping numpunct and a ctype with one more white-space character "
+        "(the locale argument must be imbued); every sequence of up to 2 (thorough 3) steps {io::get, peek, extract<char|string|bool|int|"
+        "unsigned short>, expect, clear, enum input, vector input} on every text over small alphabets; an enum with empty / blank / NUL / "
+        "prefix names, every short text as enum input with the target variable printed, wide streams, enum array and matrix output, several "
+        "vectors read from one stream; the impl::codecvt loop run over scripted facets installed in a locale (every input over "
+        "{01,02,03,0f,ee,fd} up to length 4 (thorough 5) x 16 flag sets x 4 max_lengths x 3 chunk sizes x both directions: noconv, error, "
+        "partial with nothing written, ok with input left over, max_length 0, state carried between calls, to_next left null). float / double "
+        "decimal text is judged by an exact-rational oracle of the plugin (extra_checks), outside the Lean model. An op is non-trivial unless "
+        "it is `native`, `literals` or answered bad-op.")
 ASSUMPTIONS = [
     "object representation of an n-byte integer = its n base-256 digits (two's complement), least significant first on this machine "
     "(native is a parameter of the model; the harness reports std::endian::native); float/double only as the same-width bit pattern",
@@ -38,8 +52,22 @@ ASSUMPTIONS = [
     "for ANY converter meeting the stated Contract",
     "wchar_t is a 32-bit code point; C.utf8 is the only UTF-8 locale of the sandbox; FCPPT_NARROW_STRING is defined (fcppt::string = std::string)",
     "enumerator = its index; names table = to_string_impl<Enum>::get",
+    "std::stringstream: ostream::write only writes to a good() stream and leaves a stream that is not good and not bad untouched (libstdc++ 12 "
+    "sentry: `else if (bad()) setstate(failbit)`), istream::read sets eofbit|failbit on a short read and consumes what was there, peek sets "
+    "eofbit only, both directions share the state bits (Model/C15/Stream.lean): validated by the exhaustive stream scripts, not proved",
+    "istream::get(), num_get::do_get(bool&) without boolalpha (reads a long; 0/1 are the values, anything else stores true + failbit), "
+    "num_put with numpunct grouping \"\\3\" (a separator in front of every complete group of three digits; reading such a text back through the "
+    "same locale is modelled as: the canonical separators are skipped), ctype<char> tables only affect the sentry's white-space skipping, "
+    "ctype<wchar_t>::narrow(c, 0) is c below 128 and 0 otherwise: validated, not proved",
+    "the scripted facets (c15::toy_facet in harness/c15.cpp) compute exactly Model/C15/Toy.lean's toyStep (same definition written twice; "
+    "mbstate_t.__count / __value.__wch hold the state); they reach the loop through the public narrow_locale / widen_locale with a std::locale",
 ]
 TRUSTED = ["harness/c15.cpp and the digest/line protocol (vh.hpp, Proto.lean)", "g++ 12 + ASan/UBSan as witness for memory safety of the instantiations"]
+
+# long double witnesses as the unsigned number of the 80 value bits (sign, 15-bit exponent, 64-bit mantissa with explicit integer bit):
+# pi, -0.0, LDBL_MAX, the smallest denormal, another denormal, 1.0, -1.5, LDBL_MIN
+F80_WITNESSES = [(0x4000 << 64) | 0xC90FDAA22168C235, 0x8000 << 64, (0x7FFE << 64) | 0xFFFFFFFFFFFFFFFF, 1, 0x000123456789ABCD,
+                 (0x3FFF << 64) | (1 << 63), (0xBFFF << 64) | (3 << 62), (1 << 64) | (1 << 63)]
 
 INT_TYPES = {"u8": (8, False), "i8": (8, True), "u16": (16, False), "i16": (16, True),
              "u32": (32, False), "i32": (32, True), "u64": (64, False), "i64": (64, True)}
@@ -114,7 +142,8 @@ def all_strings(alpha, maxlen):
 
 NUM_DESTS = ["u16", "i16", "u32", "i32", "u64", "i64"]
 CHAR_DESTS = ["c8", "u8", "i8"]
-ENUMS = {1: ["test1", "test2", "test3"], 2: ["foo", "bar", "baz", "fo", "foobar"], 3: ["a", "b", "a"], 4: ["only"]}
+ENUMS = {1: ["test1", "test2", "test3"], 2: ["foo", "bar", "baz", "fo", "foobar"], 3: ["a", "b", "a"], 4: ["only"],
+         5: ["", "a b", "x\x00y", " z", "x", "a"]}
 VEC_TYPES = ["i32", "i64", "u16", "u32"]
 
 
@@ -299,7 +328,7 @@ def expected_narrow(cs):
 
 
 def nontrivial(op, result):
-    return result != "bad-op" and op != "native"
+    return result != "bad-op" and op not in ("native", "literals")
 
 
 def weight(op):
@@ -308,6 +337,10 @@ def weight(op):
         return int(t[4])
     if t[0] == "nws":
         return int(t[2])
+    if t[0] == "toys":
+        return sum(6 ** k for k in range(int(t[5]) + 1))
+    if t[0] == "nwlong":
+        return 1
     return 1
 
 
@@ -322,7 +355,37 @@ def refine(op):
     if t[0] == "nws":
         lo, n = int(t[1]), int(t[2])
         return [f"nw {c:08x}" for c in range(lo, lo + n)]
+    if t[0] == "toys":
+        wide = t[1] == "out"
+        return [f"toy {t[1]} {t[2]} {t[3]} {t[4]} " + (whx(w) if wide else hexs(w)) for w in toy_inputs(int(t[5]))]
+    if t[0] == "bst" and "," in t[1]:
+        # every proper prefix of the script: the first step whose result differs
+        steps = t[1].split(",")
+        return ["bst " + ",".join(steps[:k]) for k in range(1, len(steps))]
+    if t[0] == "tst" and "," in t[3]:
+        steps = t[3].split(",")
+        return [f"tst {t[1]} {t[2]} " + ",".join(steps[:k]) for k in range(1, len(steps))]
     return None
+
+
+TOY_ALPHABET = [0x01, 0x02, 0x03, 0x0F, 0xEE, 0xFD]
+
+
+def toy_inputs(maxlen):
+    out = []
+    for n in range(maxlen + 1):
+        for i in range(6 ** n):
+            out.append([TOY_ALPHABET[i // 6 ** (n - 1 - k) % 6] for k in range(n)])
+    return out
+
+
+def seqs(alpha, maxlen, minlen=1):
+    out, layer = [], [[]]
+    for n in range(1, maxlen + 1):
+        layer = [w + [c] for w in layer for c in alpha]
+        if n >= minlen:
+            out += layer
+    return out
 
 
 def batches(rng, tier):
@@ -474,6 +537,207 @@ def batches(rng, tier):
         ops.append(f"vin {ty} {r.choice([n, n, n, r.range(1, 4)])} {hx(text)}")
     yield Batch("vector-input-malformed", ops, note="mutated vector texts: missing/extra characters, whitespace, out-of-range elements, truncated text, wrong dimension")
 
+    # ---------------------------------------------------------------- every other arithmetic type; one stream object
+    r = rng.fork("bin-more")
+    ops = ["bins b1 L 0 2", "bins b1 B 0 2", "bin b1 L 0", "bin b1 B 1", "seq b1 B 1,0,1", "seq b1 L -"]
+    for ty, lo in (("ch", -128), ("c8t", 0)):
+        for e in "LB":
+            ops.append(f"bins {ty} {e} {lo} 256")
+    for e in "LB":
+        for a in range(0, 65536, 2048):
+            ops.append(f"bins c16 {e} {a} 2048")
+    for ty, like in (("wc", "i32"), ("c32", "u32"), ("ll", "i64"), ("ull", "u64")):
+        for e in "LB":
+            for v in lattice(like):
+                ops.append(f"bin {ty} {e} {v}")
+            for _ in range(3000 if thorough else 300):
+                ops.append(f"bin {ty} {e} {rand_val(r, like)}")
+            size = INT_TYPES[like][0] // 8
+            for n in range(0, 2 * size + 2):
+                ops.append(f"rd {ty} {e} " + hexs([r.below(256) for _ in range(n)]))
+    yield Batch("bin-more-types", ops, exhaustive=True,
+                note="bool (both values), char / char8_t / char16_t exhaustively, wchar_t / char32_t / long long / unsigned long long on the lattice + random: the same write / read / swap / convert line as for the fixed-width types")
+    # long double: the native order is an ordinary diff check; the non-native order is the listed known finding (extra_checks)
+    native_tok = "L" if sys.byteorder == "little" else "B"
+    yield Batch("bin-long-double-native-order", [f"bin f80 {native_tok} {v}" for v in F80_WITNESSES] +
+                [f"bin f80 {native_tok} {(r.below(2) << 79) | (r.range(1, 0x7FFE) << 64) | (1 << 63) | r.below(1 << 63)}" for _ in range(200)],
+                note="long double (x87 extended, as the number of its 80 value bits; padding masked) in the machine's own byte order: write, read back, read again, swap twice, convert twice")
+    steps = ["w.u8.L.1", "w.u16.B.513", "r.u8.L", "r.u16.B", "r.u16.L", "p", "c", "wc.0a0b", "rc.1", "rc.0", "rc.2"]
+    ops = ["bst " + ",".join(sq) for sq in seqs(steps, 4 if thorough else 3)]
+    # the four-step scripts that matter most in the quick tier: a failure in the middle, then clear, then traffic again
+    if not thorough:
+        for a in ("r.u16.B", "rc.2", "r.u8.L"):
+            for b in ("c", "p", "w.u8.L.1"):
+                for c_ in steps:
+                    for d in ("r.u8.L", "rc.1", "r.u16.L", "wc.0a0b"):
+                        ops.append(f"bst w.u8.L.1,{a},{b},{c_},{d}")
+    all_ty = list(INT_TYPES) + list(FLT_TYPES) + ["ch", "wc", "c8t", "c16", "c32", "ll", "ull"]
+    like_of = {"ch": "i8", "wc": "i32", "c8t": "u8", "c16": "u16", "c32": "u32", "ll": "i64", "ull": "u64"}
+    for _ in range(20000 if thorough else 2500):
+        # values of mixed types and byte orders through one stream, read back with the same / other types, failures, clear
+        n = r.range(1, 6)
+        ws = [(r.choice(all_ty), r.choice("LB")) for _ in range(n)]
+        script = [f"w.{ty}.{e}.{rand_val(r, like_of.get(ty, ty))}" for ty, e in ws]
+        k = r.below(5)
+        if k == 0:      # read back exactly what was written, one read too many
+            script += [f"r.{ty}.{e}" for ty, e in ws] + [f"r.{r.choice(all_ty)}.L"]
+        elif k == 1:    # same sizes, other byte order / other type of the same size
+            script += [f"r.{ty}.{'L' if e == 'B' else 'B'}" for ty, e in ws]
+        elif k == 2:    # interleaved
+            script = [x for ty_e, w in zip(ws, script) for x in (w, f"r.{ty_e[0]}.{ty_e[1]}")]
+            script.insert(r.below(len(script) + 1), r.choice(["p", "c", "rc.1", "wc.ff", f"r.{r.choice(all_ty)}.B"]))
+        elif k == 3:    # fail, clear, go on
+            script += [f"r.{r.choice(all_ty)}.{r.choice('LB')}" for _ in range(r.range(1, 8))]
+            script += ["c", f"w.u32.B.{r.below(1 << 32)}", "r.u32.B", "r.u8.L"]
+        else:
+            script += [r.choice([f"r.{r.choice(all_ty)}.{r.choice('LB')}", "p", "c", f"rc.{r.below(5)}", "wc." + hexs([r.below(256) for _ in range(r.range(1, 3))])])
+                       for _ in range(r.range(1, 8))]
+        ops.append("bst " + ",".join(script))
+    yield Batch("bin-stream-scripts", ops, exhaustive=True,
+                note="io::write / io::read / write_chars / read_chars / peek / clear on ONE std::stringstream: every script of up to 3 (thorough: 4) steps over 11 steps, failure-then-clear scripts, seeded scripts with mixed types and byte orders; the state bits are printed after every step")
+
+    # ---------------------------------------------------------------- bool, strings, other locales, the stream helpers
+    ops = ["rtb N 0", "rtb N 1", "rtb W 0", "rtb W 1"]
+    small_b = all_strings(" -+012x", 4)
+    for t_ in small_b:
+        ops.append(f"efb N {hx(t_)}")
+    for t_ in all_strings(" -012", 3):
+        ops.append(f"efb W {hx(t_)}")
+    for t_ in ["00", "01", "001", "10", "-1", "+1", "-0", "99999999999999999999", "-99999999999999999999", "1x", "1 ", " 1", "\t0", "true", "false"]:
+        ops.append(f"efb N {hx(t_)}")
+    words = all_strings(" ab\n", 5)
+    for t_ in words:
+        ops.append(f"efstr N {hx(t_)}")
+        ops.append(f"rtstr N {hx(t_)}")
+    for t_ in all_strings(" a€", 3):
+        ops.append("efstr W " + whx([ord(c) for c in t_]))
+        ops.append("rtstr W " + whx([ord(c) for c in t_]))
+    for t_ in ["\x00", "a\x00b", "\x00 ", "\x80\xff", "\t\v\f\r", "a\tb", "a\x0bb"]:
+        ops.append(f"rtstr N {hx(t_)}")
+    yield Batch("text-bool-string", ops, exhaustive=True,
+                note="extract_from_string<bool> on every text over {space,-,+,0,1,2,x} up to length 4; extract_from_string<std::(w)string> and the output/extract round trip on every text over {space,a,b,newline} up to length 5 (strings round-trip iff non-empty and free of white space)")
+    ops = []
+    for ty in NUM_DESTS:
+        for v in lattice(ty):
+            ops.append(f"otsl {ty} {v}")
+        for k in range(0, 21):
+            for v in (10 ** k - 1, 10 ** k, -(10 ** k), -(10 ** k) + 1):
+                lo, hi = trange(ty)
+                if lo <= v <= hi:
+                    ops.append(f"otsl {ty} {v}")
+        for _ in range(3000 if thorough else 300):
+            ops.append(f"otsl {ty} {rand_val(r, ty)}")
+        for t_ in all_strings("x 1-", 4):
+            ops.append(f"efsx {ty} {hx(t_)}")
+        for t_ in ["xx 12", "x\t-7x", "12x", "x", "xxxx", " x x 1", "1x2", "x+5", "y5"]:
+            ops.append(f"efsx {ty} {hx(t_)}")
+    yield Batch("text-other-locales", ops, exhaustive=True,
+                note="the locale argument is really imbued: output_to_string_locale with a grouping numpunct (and back through the same locale) on the lattice, every power of ten and random values; extract_from_string_locale with a ctype<char> in which 'x' is white space on every text over {x,space,1,-} up to length 4")
+    tsteps = ["g", "p", "xc", "xs", "xb", "xi32", "xu16", "e31", "c"]
+    ops = []
+    for t_ in all_strings(" 1a-", 3):
+        for sq in seqs(tsteps, 3 if thorough else 2):
+            ops.append(f"tst N {hx(t_)} " + ",".join(sq))
+    if not thorough:
+        for t_ in ["1 a", " 1", "11", "a", "-1 ", ""]:
+            for sq in seqs(tsteps, 3, 3):
+                ops.append(f"tst N {hx(t_)} " + ",".join(sq))
+    for t_ in all_strings(" ab(1,)", 3 if thorough else 2) + ["a b", "(1)", "(1,1)", "b a ", "(1,1) a", "a(1)"]:
+        for sq in seqs(["n3", "n5", "v1", "v2", "c", "g", "xi32", "xs"], 3 if thorough else 2):
+            ops.append(f"tst N {hx(t_)} " + ",".join(sq))
+    for t_ in ["a b", "(1)a", "b", " a", "(1,1)"]:
+        for sq in seqs(["n3", "n5", "v1", "v2", "c", "p"], 2):
+            ops.append("tst W " + whx([ord(c) for c in t_]) + " " + ",".join(sq))
+    for t_ in all_strings("\xffa", 2) + ["\xff \xff", " \xff", "\xfe\xff\x80"]:
+        for sq in seqs(["g", "p", "xc", "xs"], 3):
+            ops.append(f"tst N {hx(t_)} " + ",".join(sq))
+    for _ in range(10000 if thorough else 1500):
+        text = "".join(r.choice(" \n1270-+ax(),") for _ in range(r.range(0, 8)))
+        sq = [r.choice(tsteps + ["xi16", "xu32", "xi64", "xu64", "e28", "e2c", "e29", "e20"]) for _ in range(r.range(1, 7))]
+        if r.chance(1, 4):
+            ops.append("tst W " + whx([ord(c) for c in text] + ([0x20AC] if r.chance(1, 3) else [])) + " " + ",".join(sq))
+        else:
+            ops.append(f"tst N {hx(text)} " + ",".join(sq))
+    yield Batch("stream-steps", ops, exhaustive=True,
+                note="fcppt::io::get / peek / extract<char|string|bool|int|unsigned short> / expect / clear on ONE input stream: every sequence of up to 2 (thorough: 3) steps on every text over {space,1,a,-} up to length 3, all 3-step sequences on six texts, seeded longer ones (also wide); state bits after every step")
+    ops = ["literals"]
+    for t_ in ["", "a", "a\xc3\xa4", "\x00", "a\x00b", "\xff\xfe", " a b "]:
+        ops.append("strconv " + hx(t_))
+    for _ in range(200):
+        ops.append("strconv " + hexs([r.below(256) for _ in range(r.range(1, 12))]))
+    yield Batch("string-conv-identity", ops, note="from_std_string(_locale) / to_std_string(_locale) / output_to_fcppt_string are the identity for a narrow fcppt::string, with any bytes and any locale; FCPPT_STRING_LITERAL / FCPPT_CHAR_LITERAL pick the literal of the requested width")
+    # ---------------------------------------------------------------- enums with odd names, wide streams, enum arrays, matrices
+    ops = []
+    for k, names in ENUMS.items():
+        for e in range(len(names)):
+            ops.append(f"enumw {k} {e}")
+        ops.append(f"earr {k} " + ",".join(str(7 * i - 3) for i in range(len(names))))
+        ops.append(f"earr {k} " + ",".join(str(r.choice([-(1 << 31), (1 << 31) - 1, 0, -1])) for i in range(len(names))))
+    for k in (3, 5):
+        for t_ in all_strings(" ab\nx", 5 if thorough else 4):
+            ops.append(f"ein {k} {hx(t_)}")
+    for t_ in all_strings(" ax\x00y", 4):
+        ops.append(f"ein 5 {hx(t_)}")
+    for t_ in all_strings(" fo€", 3):
+        ops.append("einw 2 " + whx([ord(c) for c in t_]))
+    for t_ in ["a b", "a b x", "x\x00y", " z", "z", "x a b", "a\x00", "\x00a", "a\nb", "a  b"]:
+        ops.append(f"ein 5 {hx(t_)}")
+        ops.append("einw 5 " + whx([ord(c) for c in t_]))
+    yield Batch("enum-odd-names-wide", ops, exhaustive=True,
+                note="an enum with an empty name, a blank inside a name, an embedded NUL, a leading blank and names that are prefixes of each other; stream input on every text over {space,a,b,newline,x} up to length 4 (thorough: 5) and over {space,a,x,NUL,y} up to 4; the variable handed to input() is printed (unchanged on failure); wide streams; enum_::array output")
+    ops = []
+    for ty in VEC_TYPES:
+        lo, hi = trange(ty)
+        alpha = sorted({lo, -1 if lo < 0 else 1, 0, 10, hi})
+        for rr, cc in ((1, 1), (1, 2), (2, 1), (2, 2)):
+            for vs in seqs(alpha, rr * cc, rr * cc):
+                ops.append(f"mat {ty} {rr} {cc} " + ",".join(map(str, vs)))
+        for rr, cc in ((1, 3), (3, 1), (2, 3), (3, 2), (3, 3)):
+            for _ in range(200 if thorough else 40):
+                ops.append(f"mat {ty} {rr} {cc} " + ",".join(str(r.choice(alpha + [rand_val(r, ty)])) for _ in range(rr * cc)))
+        for n in range(1, 4):
+            for vs in seqs(alpha, n, n):
+                ops.append(f"vecw {ty} {n} " + ",".join(map(str, vs)))
+    short = all_strings("(),1 ", 7 if thorough else 6)
+    for t_ in short:
+        ops.append(f"vinm i32 1 {hx(t_)}")
+    for t_ in all_strings("(),1 ", 5):
+        ops.append(f"vinw i32 2 {hx(t_)}")
+    for _ in range(6000 if thorough else 800):
+        ty = r.choice(VEC_TYPES)
+        n = r.range(1, 3)
+        parts = []
+        for _ in range(r.range(1, 4)):
+            parts.append(r.choice(["", "", " ", "\n"]) + "(" + ",".join(r.choice(["", " "]) + str(rand_val(r, ty)) + r.choice(["", "", " "]) for _ in range(n)) + r.choice([")", ")", ")", "", " )"]))
+        ops.append(f"vinm {ty} {n} {hx(''.join(parts))}")
+    yield Batch("matrix-vector-streams", ops, exhaustive=True,
+                note="matrix output (all 1x1..2x2 over {min,-1|1,0,10,max}, seeded larger ones; narrow = wide), vector output/input through wide streams, several vectors from one stream: every text over {( ) , 1 space} up to length 6 (thorough: 7) read repeatedly")
+
+    # ---------------------------------------------------------------- the loop of impl::codecvt over scripted facets
+    ops = []
+    for d in ("in", "out"):
+        for f in range(16):
+            for m in (0, 1, 3, 4):
+                for c_ in (0, 1, 2):
+                    ops.append(f"toys {d} {f} {m} {c_} {5 if thorough else 4}")
+    for _ in range(20000 if thorough else 3000):
+        d = r.choice(["in", "out"])
+        n = r.range(1, 40)
+        shape = r.below(4)
+        if shape == 0:
+            units = [r.choice([1, 2, 3, 4, 5, 0x0F, 0x1F]) for _ in range(n)]
+        elif shape == 1:
+            units = [r.choice([2, 5, 8]) for _ in range(n)]             # three output units each: the buffer has to grow
+        elif shape == 2:
+            units = [r.below(256) for _ in range(n)]
+        else:
+            units = [r.choice([1, 2, 3, 0x0F]) for _ in range(n - 1)] + [r.choice([0x0F, 0xEE, 0xFD, 1, 0x2F])]
+        if d == "out" and r.chance(1, 3):
+            units = [u + 256 * r.below(1 << 20) for u in units]
+        ops.append(f"toy {d} {r.below(16)} {r.choice([0, 1, 2, 3, 4, 6, 8])} {r.choice([0, 0, 1, 2, 3, 5, 8])} " + (whx(units) if d == "out" else hexs(units)))
+    yield Batch("codecvt-loop-scripted-facets", ops, exhaustive=True,
+                note="narrow_locale / widen_locale with a facet of the harness' own inside the locale (Model/C15/Toy.lean on both sides): noconv, error, partial with nothing written, ok with input left over, max_length() 0..4 (also untruthful), a state that is non-initial between calls, at most 1 or 2 units per call; every input over {01,02,03,0f,ee,fd} up to length 4 (thorough: 5) x 16 flag sets x 4 max_lengths x 3 chunk sizes x both directions, seeded inputs up to length 40")
+
     # ---------------------------------------------------------------- UTF-8: narrow / widen in C.utf8
     yield Batch("utf8-facet", ["facet"], exhaustive=True, note="max_length() = 6 and always_noconv() = false, as the model assumes")
     ops = [f"nws {lo} 4096" for lo in range(0, 0x110000, 4096)]
@@ -494,6 +758,12 @@ def batches(rng, tier):
             ops.append("nw " + whx([c] * n))
             ops.append("nw " + whx([0x41] * (n - 1) + [c]))
             ops.append("nw " + whx([c] + [0x41] * (n - 1)))
+    # long strings: many growth steps of the buffer, capacities beyond 2^8 / 2^12 / 2^16
+    for n in (100, 255, 256, 257, 1000, 4095, 4096, 4097, 20000) + ((65535, 65536, 65537) if thorough else ()):
+        for pat in ([0x41], [0xE4], [0x20AC], [0x1F600], [0x41, 0x1F600], [0x20AC, 0x41, 0xE4], [0x41] * 7 + [0x10FFFF]):
+            if len(pat) * n <= 200000:
+                ops.append(f"nwlong {whx(pat)} {n}")
+    ops += [f"nwlong {whx([0x41, 0xD800])} 300", f"nwlong {whx([0x41] * 99 + [0xDFFF])} 50"]
     yield Batch("utf8-strings", ops, note="random strings of scalar values up to length 40 and, for every length 1..40, strings whose encoded length is n, 2n, 3n, 4n, n+1..n+3")
     # the facet itself: contract of the abstract converter, concrete model of libstdc++/glibc
     ops = []
@@ -606,7 +876,163 @@ def extra_checks(binp, rng, tier, ev):
     ev["coverage"]["utf8_rule"] = {"ops": len(ops), "not_complete_or_failure": len(other) + len(known), "of_these_known_finding_class": len(known),
                                    "rule": "result of widen_locale/narrow_locale in C.utf8 == strict conversion by the plugin's own coder, 'exc'/'none' iff ill-formed"}
     # anything outside the listed class first: it must never be hidden behind the known finding
-    return other[:3] + known[:1]
+    return other[:3] + float_checks(binp, rng, tier, ev) + long_double_checks(binp, ev) + known[:1]
+
+
+# ---------------------------------------------------------------- float / double through decimal text: an exact oracle
+FLT_FMT = {"f32": (24, -126, 127, "<f", "<I", 32), "f64": (53, -1022, 1023, "<d", "<Q", 64)}
+
+
+def bits_to_float(ty, bits):
+    import struct
+    _, _, _, ff, fi, _ = FLT_FMT[ty]
+    return struct.unpack(ff, struct.pack(fi, bits))[0]
+
+
+def float_text(ty, bits):
+    """what `os << v` writes with the default precision 6 and default float field (printf %g; glibc prints the sign of a NaN)"""
+    import math
+    nbits = FLT_FMT[ty][5]
+    x = bits_to_float(ty, bits)
+    if math.isnan(x):
+        return "-nan" if bits >> (nbits - 1) else "nan"
+    return "%g" % x
+
+
+def parse_exact(ty, text):
+    """the correctly rounded (nearest-even) value of the decimal numeral `text` in the format, as bits; None = the
+    extraction fails (not a numeral libstdc++ accepts, or out of range: strtof/strtod return HUGE_VAL)"""
+    import re
+    import struct
+    from fractions import Fraction
+    p, emin, emax, ff, fi, nbits = FLT_FMT[ty]
+    if not re.fullmatch(r"[+-]?(\d+(\.\d*)?|\.\d+)([eE][+-]?\d+)?", text):
+        return None
+    neg = text.startswith("-")
+    q = abs(Fraction(text))
+    if q == 0:
+        return (1 << (nbits - 1)) if neg else 0
+    e = q.numerator.bit_length() - q.denominator.bit_length()
+    if Fraction(2) ** e > q:
+        e -= 1
+    e = max(e, emin)
+    quantum = Fraction(2) ** (e - p + 1)
+    n = q / quantum
+    fl = n.numerator // n.denominator
+    rem = n - fl
+    if rem > Fraction(1, 2) or (rem == Fraction(1, 2) and fl % 2 == 1):
+        fl += 1
+    val = fl * quantum
+    if val >= Fraction(2) ** (emax + 1):
+        return None
+    b = struct.unpack(fi, struct.pack(ff, float(val)))[0]
+    return b | (1 << (nbits - 1)) if neg else b
+
+
+def float_patterns(r, ty, n):
+    nbits = FLT_FMT[ty][5]
+    out = [v for v in lattice(ty)]
+    for _ in range(n):
+        k = r.below(4)
+        if k == 0:
+            out.append(r.below(1 << nbits))
+        elif k == 1:    # short decimals: these round-trip
+            x = r.range(-999999, 999999) * 10.0 ** r.range(-30, 30)
+            import struct
+            out.append(struct.unpack(FLT_FMT[ty][4], struct.pack(FLT_FMT[ty][3], x))[0])
+        elif k == 2:    # small integers and halves
+            import struct
+            out.append(struct.unpack(FLT_FMT[ty][4], struct.pack(FLT_FMT[ty][3], r.range(-2000000, 2000000) / 2.0))[0])
+        else:           # exponent boundaries
+            e = r.below(1 << (nbits - FLT_FMT[ty][0]))
+            out.append((r.below(2) << (nbits - 1)) | (e << (FLT_FMT[ty][0] - 1)) | r.choice([0, 1, (1 << (FLT_FMT[ty][0] - 1)) - 1, r.below(1 << (FLT_FMT[ty][0] - 1))]))
+    return out
+
+
+def float_checks(binp, rng, tier, ev):
+    """output_to_std_string / extract_from_string for float and double against printf-%g and an exact-rational parser of
+    this file's own: the code writes 6 significant digits, so the round trip holds exactly for the values that are the
+    nearest float to their own 6-digit decimal; for the others the text is read back as THAT decimal's nearest float (a
+    different value — documented, the statement claims the round trip for integers only) or, for inf/nan, fails."""
+    from vlib.runner import run_harness
+    r = rng.fork("float-text")
+    ops, want, meta = [], [], []
+    for ty in ("f32", "f64"):
+        for bits in float_patterns(r, ty, 6000 if tier == "thorough" else 1200):
+            text = float_text(ty, bits)
+            back = parse_exact(ty, text)
+            ops.append(f"rtf {ty} {bits}")
+            want.append("s=" + hx(text) + " r=" + ("none" if back is None else str(back)))
+            meta.append((ty, bits, back))
+        for text in ["1", "-0", "0.5", "1e3", "1e+3", "1E3", ".5", "5.", "1e", "e1", "1e+", "+.5e-1", "1.5x", " 1.5", "1.5 ", "inf", "nan", "-inf", "0x10", "1e39", "1e309", "1e-400",
+                     "3.4028235e38", "3.4028236e38", "1.7976931348623157e308", "1.7976931348623159e308", "4.9e-324", "2.4703282292062328e-324", "1.4e-45", "7e-46",
+                     "16777217", "9007199254740993", "0.1", "123456789012345678901234567890", "--1", "+-1", "1..2", ""]:
+            if text.strip() != text or text == "":
+                want_r = "none" if text != " 1.5" else None
+            else:
+                want_r = None
+            back = parse_exact(ty, text.strip()) if text == " 1.5" else parse_exact(ty, text)
+            ops.append(f"eff {ty} {hx(text)}")
+            want.append(want_r if want_r is not None else ("none" if back is None else str(back)))
+            meta.append(None)
+    lines, deaths = run_harness(binp, ops)
+    out, rt = [], {"f32": [0, 0], "f64": [0, 0]}
+    for op, w, got, m in zip(ops, want, lines, meta):
+        if m is not None and got not in ("NOT-RUN", "SKIPPED-AFTER-DEATH", None):
+            rt[m[0]][1] += 1
+            if m[2] == m[1]:
+                rt[m[0]][0] += 1
+        if got in ("NOT-RUN", "SKIPPED-AFTER-DEATH", None) or got == w:
+            continue
+        out.append({"kind": "input", "batch": "float-text-oracle", "batch_kind": "stateless", "ops": [op], "expected": [w], "observed": [got],
+                    "what": f"float/double decimal text differs from printf-%g / the correctly rounded parse: {op!r} -> {got!r}, expected {w!r}"})
+    ev["coverage"]["float_text"] = {"ops": len(ops), "differences": len(out),
+                                    "bit_exact_round_trips": {k: f"{v[0]} of {v[1]}" for k, v in rt.items()},
+                                    "rule": "output_to_std_string(float|double) == '%g' % v; extract_from_string == correctly rounded value of the text (exact rational arithmetic), "
+                                            "'none' for inf/nan/overflow/trailing characters; outside the Lean model"}
+    return out[:3]
+
+
+def long_double_checks(binp, ev):
+    """long double in the NON-native byte order: the model says what the property demands (the value comes back); the
+    observed corruption is the listed known finding `long-double-non-native-order` (classified below, nothing else is)."""
+    from vlib.runner import run_harness, run_driver
+    other_tok = "B" if sys.byteorder == "little" else "L"
+    ops = [f"bin f80 {other_tok} {v}" for v in F80_WITNESSES]
+    impl, _ = run_harness(binp, ops)
+    model = run_driver(sys.modules[__name__], ops)
+    out = []
+    for op, m, i in zip(ops, model, impl):
+        if i in ("NOT-RUN", "SKIPPED-AFTER-DEATH", None) or i == m:
+            continue
+        out.append({"kind": "input", "batch": "long-double-non-native-order", "batch_kind": "stateless", "ops": [op], "expected": [m], "observed": [i],
+                    "what": f"implementation and proved model disagree on {op!r}: impl={i!r} model={m!r}"})
+    _SEEN["long_double"] = len(out)
+    ev["coverage"]["long_double_non_native"] = {"ops": len(ops), "round_trip_broken": len(out),
+                                                "rule": "io::write / io::read / swap twice / convert twice of a long double in the byte order that is not the machine's"}
+    return out
+
+
+def is_long_double_class(violation):
+    """ONLY: type f80, the byte order that is not the machine's, a value was returned (has_value) and the stream was used up"""
+    if violation.get("kind") != "input" or violation.get("batch") != "long-double-non-native-order" or not violation.get("ops"):
+        return False
+    t = violation["ops"][-1].split()
+    other_tok = "B" if sys.byteorder == "little" else "L"
+    if len(t) != 4 or t[0] != "bin" or t[1] != "f80" or t[2] != other_tok:
+        return False
+    obs = dict(f.split("=", 1) for f in (violation.get("observed") or [""])[-1].split() if "=" in f)
+    exp = dict(f.split("=", 1) for f in (violation.get("expected") or [""])[-1].split() if "=" in f)
+    # the model demands the round trip; the implementation returned SOME value from exactly the 16 bytes it wrote
+    return (exp.get("r") == t[3] and exp.get("ss") == t[3] and exp.get("cc") == t[3] and obs.get("r") not in (None, "none")
+            and obs.get("r2") == "none" and len(obs.get("w", "")) == 32)
+
+
+def _long_double_entry(findings):
+    for f in findings:
+        if f.get("property") == "C15" and f.get("status") == "known" and (f.get("match") or {}).get("kind") == "long-double-non-native-order":
+            return f
+    return None
 
 
 def _known_entry(findings):
@@ -619,6 +1045,8 @@ def _known_entry(findings):
 def classify(violation, findings):
     """Only 'widen carries an incomplete sequence across an embedded NUL' is the known finding; every other result for
     ill-formed input and every truncation stays a VIOLATION."""
+    if is_long_double_class(violation):
+        return _long_double_entry(findings)
     if violation.get("kind") != "input" or violation.get("batch") != "utf8-rule" or not violation.get("ops"):
         return None
     obs = (violation.get("observed") or [""])[-1]
@@ -634,6 +1062,9 @@ def known_finding_lines(findings, ev):
     f = _known_entry(findings)
     if f is not None and _SEEN["known_class"] > 0:
         out.append(f["line"])
+    g = _long_double_entry(findings)
+    if g is not None and _SEEN.get("long_double", 0) > 0:
+        out.append(g["line"])
     # the exhaustive 8-bit round-trip batch (rtds N i8/u8 ...) contains the six whitespace values on every run; implementation and
     # model agree there (both report the failure), so it is not a diff - the finding is listed because the literal property text
     # ("for every integer") does not hold on them
@@ -644,7 +1075,7 @@ def known_finding_lines(findings, ev):
 
 
 MANIFEST = {
-    "level_text": ("Machine-checked proofs (Lean 4, 41 theorems) over executable models that mirror the anchored code: reverse_mem's index loop is "
+    "level_text": ("Machine-checked proofs (Lean 4, 74 theorems) over executable models that mirror the anchored code: reverse_mem's index loop is "
                    "list reversal for every length; swap∘swap = id, convert round trips, io::write emits the base-256 digits most/least "
                    "significant first and io::read∘io::write = id for every width, signedness, byte order, machine order and value, a short input "
                    "never yields a value; extract_from_string(output_to_string(v)) = v for every integer of 1..8 bytes and every accepted text is "
@@ -652,8 +1083,14 @@ MANIFEST = {
                    "names; vector/dim output/input round trip for every length; the impl::codecvt loop, for ANY converter meeting the stated "
                    "contract and from every buffer state, terminates and returns the conversion of the complete input or a failure, never a "
                    "proper prefix; UTF-8 decode∘encode and encode∘decode; widen(narrow(s)) = s for every string of valid characters incl. all "
-                   "Unicode scalar values. Tied to the code by a differential correspondence that is exhaustive over all 8/16-bit integers, all "
-                   "enumerators, all small vectors and all 1,114,112 code points."),
+                   "Unicode scalar values. Extension round: one stringstream object with shared state bits (values of any mix of types and byte "
+                   "orders come back in order, a failed read is sticky for both directions until clear(), read_chars/write_chars), bool and "
+                   "std::string through extract_from_string (strings round-trip iff non-empty and blank-free, never a part), locales with "
+                   "grouping or another ctype, enum stream input = from_string of the first word for ANY names table (duplicates, blanks, wide "
+                   "streams), white-space-tolerant vector input, several vectors per stream, matrix output, the loop is total for ANY converter "
+                   "that respects its window (no meaning needed) incl. the scripted facets of the harness, fcppt::string conversions. Tied to "
+                   "the code by a differential correspondence that is exhaustive over all 8/16-bit integers, all "
+                   "enumerators, all small vectors, all 1,114,112 code points, all short stream scripts and all short inputs of 384 scripted facets."),
     "level_note": ("PARTIAL: the UTF-8 conversion itself (glibc/libstdc++ codecvt) and num_get/num_put are library code; they enter as validated "
                    "assumptions (a stated contract + per-character models checked against the real facet/streams on every run), not as proved "
                    "code. widen's strong statement excludes the listed known finding (an incomplete sequence directly followed by an embedded "
